@@ -168,3 +168,25 @@ fn c15_revocation_identifiers_biscuit() {
     std::mem::forget(keys);
     std::mem::forget(t);
 }
+
+/// C08-K1 at the `Biscuit` level: a sealed token refuses a third-party request and a re-seal
+#[kani::proof]
+#[kani::stub(alloc::fmt::format, crate::kh_support::fmt_format_stub)]
+#[kani::stub(zeroize::optimization_barrier, crate::kh_support::barrier_stub)]
+#[kani::unwind(6)]
+fn c08_sealed_biscuit_refuses() {
+    let mut t = token(1);
+    let s: [u8; 3] = kani::any();
+    let old = std::mem::replace(&mut t.container.proof, crate::crypto::TokenNext::Seal(crate::crypto::Signature::from_vec(s.to_vec())));
+    std::mem::forget(old);
+    crate::crypto::kh_oracle::switch_on();
+    let refused = if kani::any() {
+        matches!(t.third_party_request(), Err(error::Token::AppendOnSealed))
+    } else {
+        matches!(t.seal(), Err(error::Token::AlreadySealed))
+    };
+    kani::cover!(refused, "witness: a sealed token refused the operation");
+    assert!(refused, "a sealed Biscuit accepts a third-party request or a re-seal");
+    assert!(crate::crypto::kh_oracle::n_sign() == 0, "something was signed for a sealed token");
+    std::mem::forget(t);
+}
